@@ -1,6 +1,7 @@
 """C10 — range-proof verification accepts exactly the specified proofs (reference verifier + adversarial reference prover)."""
 import ctypes
 import os
+import signal
 from ctypes import c_size_t, c_int, c_uint64, byref
 
 from hypothesis import strategies as st
@@ -94,6 +95,7 @@ def rewind_forked(env, c, proof, nonce32, g, extra, paint):
     pid = os.fork()
     if pid == 0:
         try:
+            signal.signal(signal.SIGABRT, signal.SIG_DFL)      # die at once on abort(): no sanitizer stack symbolisation in the throw-away child
             r = rewind_painted(env, c, proof, nonce32, g, extra, paint)[0]
             os._exit(40 + (r & 1) if r in (0, 1) else 50)
         except BaseException:
@@ -169,9 +171,9 @@ class Verdicts:
 @st.composite
 def lib_case(draw):
     exp = draw(st.sampled_from([-1, 0, 0, 0, 0, 1, 2, 5]))
-    mb = draw(st.sampled_from([0, 0, 0, 1, 1, 2, 2, 3, 3, 4, 4, 5, 6, 7, 8, 9, 10, 12, 16, 24, 33, 64, 64, 64]))
-    value = draw(st.one_of(st.integers(0, 3), st.integers(0, 3), st.integers(0, 255), st.integers(0, 255), st.integers(0, 1 << 16), st.integers(0, 1 << 16),
-                           st.sampled_from([(1 << 63) - 2, 1 << 62, 10 ** 18, 1 << 32]), gens.u64_edge.map(lambda x: x >> 1)))
+    mb = draw(st.sampled_from([0, 0, 0, 1, 1, 2, 2, 3, 3, 4, 4, 5, 6, 7, 8, 9, 10, 12, 16, 24, 33, 64, 64, 0, 1, 2, 3]))
+    value = RC.weighted(draw, [(3, st.integers(0, 3)), (3, st.integers(0, 255)), (3, st.integers(0, 1 << 16)), (2, st.integers(0, 1 << 24)),
+                               (1, st.sampled_from([(1 << 63) - 2, 1 << 62, 10 ** 18, 1 << 32, 1 << 40])), (1, gens.u64_edge.map(lambda x: x >> 1))])
     mink = draw(st.sampled_from(["zero", "zero", "zero", "eq", "below", "one"]))
     value = min(value, (1 << 63) - 2)
     mn = {"zero": 0, "eq": value, "one": min(1, value)}.get(mink)
@@ -182,11 +184,14 @@ def lib_case(draw):
             "gen": draw(RC.gen_spec), "seed": draw(st.integers(0, 1 << 40)), "paint": draw(st.sampled_from([0xFF, 0xFF, 0x00, 0xA5]))}
 
 
-def flip_positions(nbytes, seed):
+def flip_positions(nbytes, seed, tier):
+    """every bit for proofs <= 200 bytes; otherwise 256 sampled positions (quick tier: 64 for proofs > 1200 bytes, where one changed digit commitment
+    costs the reference a full chain of up to 128 double multiplications)"""
     if nbytes <= 200:
-        return list(range(nbytes * 8)), True
-    raw = stream_bytes(seed, b"flips", 4 * 256)
-    return [int.from_bytes(raw[4 * i:4 * i + 4], "big") % (nbytes * 8) for i in range(256)], False
+        return list(range(nbytes * 8)), "every_bit"
+    k = 64 if (tier == "quick" and nbytes > 1200) else 256
+    raw = stream_bytes(seed, b"flips", 4 * k)
+    return [int.from_bytes(raw[4 * i:4 * i + 4], "big") % (nbytes * 8) for i in range(k)], "sampled%d" % k
 
 
 def run_lib(env, case):
@@ -218,8 +223,11 @@ def run_lib(env, case):
     env.require(V.check(proof, c, C, g, H, extra, "unmodified library proof"), "the reference verifier rejects an honest library proof (reference and library disagree)",
                 proof=proof.hex()[:200])
     # --- bit flips
-    pos, every = flip_positions(len(proof), case["seed"])
-    classes.append("flips:every_bit" if every else "flips:sampled256")
+    pos, how = flip_positions(len(proof), case["seed"], getattr(env, "tier", "quick"))
+    classes.append("flips:" + how)
+    if env.cfg == "vsan":
+        # the sanitizer build is ~10x slower in the group arithmetic: it takes one of eight interleaved slices of the flip list (all slices occur over a run)
+        pos = pos[case["seed"] % 8::8]
     for p in pos:
         m2 = bytearray(proof)
         m2[p >> 3] ^= 1 << (p & 7)
@@ -232,7 +240,7 @@ def run_lib(env, case):
         ok = V.check(proof + fill, c, C, g, H, extra, "extended by %d" % k, expect=False)
     classes.append("trunc_ext")
     # --- extra commit: flips, append, drop
-    limit = 4 if mant > 16 else 16
+    limit = 2 if mant > 16 else 16
     exs = []
     if extra:
         bits = list(range(len(extra) * 8))
@@ -266,7 +274,7 @@ def run_lib(env, case):
 # ================================================================================================ (ii) reference prover
 ADV = ["honest", "honest", "exact", "exp_hi", "reserved", "mant_hi", "overflow", "exp_overflow", "spare_bits", "trailing", "digit_bad_x", "digit_x_plus_p",
        "scalar_zero", "last_inf", "wrong_witness", "f3", "ref_sender"]
-MANT_SMALL = [1, 1, 2, 2, 3, 3, 4, 5, 5, 6, 7, 8, 9, 11, 16, 17, 19, 32, 33]
+MANT_SMALL = [1, 1, 2, 2, 3, 3, 4, 5, 5, 6, 7, 8, 9, 11, 16, 17, 19, 33]
 
 
 def _tiny_points():
@@ -287,10 +295,10 @@ TINY = _tiny_points()
 @st.composite
 def ref_case(draw, adv=None):
     a = adv or draw(st.sampled_from(ADV))
-    mant = draw(st.one_of(st.sampled_from(MANT_SMALL), st.sampled_from(MANT_SMALL), st.sampled_from(MANT_SMALL), st.sampled_from([63, 64]), st.integers(1, 64)))
+    mant = RC.weighted(draw, [(10, st.sampled_from(MANT_SMALL)), (1, st.sampled_from([63, 64, 64])), (1, st.integers(1, 64))])
     if a == "f3":
-        mant = draw(st.sampled_from([1, 1, 3, 3, 5, 5, 7, 9, 11, 17, 33, 63]))
-    if a in ("honest", "overflow") and draw(st.integers(0, 5)) == 0:
+        mant = draw(st.sampled_from([1, 1, 1, 3, 3, 3, 5, 5, 7, 9, 11, 17, 63]))
+    if a in ("honest", "overflow") and draw(st.sampled_from([0, 1, 2, 3, 4, 5, 6, 7])) == 0:
         mant = 64
     return {"adv": a, "mant": mant, "exp": draw(st.sampled_from([0, 0, 0, 1, 2, 3, 9, 18])), "minsel": draw(st.sampled_from(["none", "none", "zero", "small", "max"])),
             "v": draw(st.one_of(st.integers(0, U64), gens.u64_edge)), "seed": draw(st.integers(0, 1 << 40)), "param": draw(st.integers(0, 1 << 16)),
@@ -338,12 +346,11 @@ def build_ref(env, case):
         exp = 19 + param % 13
         mant = 1 if (exp == 19 or param & 1) else min(mant, 8)
     elif a == "exp_overflow":
-        exp = max(1, exp)
-        mant = 64 - (param % 3)
+        exp = [18, 18, 17, 15, 12, 1][param % 6]            # large exponents overflow already for small (cheap) mantissas
+        mant = 1
         while ((1 << mant) - 1) * 10 ** exp <= U64:
             mant += 1
-        if mant > 64:
-            exp, mant = 1, 64
+        mant = min(64, mant + (param >> 3) % 2)
     else:
         mant = clamp_mant(mant, exp)
     if a in ("spare_bits", "digit_bad_x", "digit_x_plus_p") and mant < 3:
@@ -677,13 +684,13 @@ def _only(adv):
 
 
 TESTS = [
-    Test("lib_mutations", lib_case, run_lib, quick=64, thorough=3000,
+    Test("lib_mutations", lib_case, run_lib, quick=64, thorough=1600, max_workers=16,
          must_cover=["flips:every_bit", "flips:sampled256", "mant=64", "mant=exact", "mant=1", "trunc_ext", "extra_mut", "other_commit_gen", "verdict:accept", "verdict:reject"]),
-    Test("ref_prover", ref_case, run_ref, quick=700, thorough=30000,
+    Test("ref_prover", ref_case, run_ref, quick=420, thorough=20000, max_workers=16,
          must_cover=["small_s", "s_plus_n_twin", "honest:accepted", "exact:accepted", "exp_hi:rejected", "reserved:rejected", "mant_hi:rejected", "overflow:just_below", "overflow:at",
                      "overflow:above", "overflow:accepted", "overflow:rejected", "exp_overflow:rejected", "spare_bits:rejected", "trailing:rejected", "digit_x_ge_p", "digit_off_curve",
                      "digit_x_plus_p:accepted", "digit_x_plus_p_twin", "scalar_zero:rejected", "last_inf:rejected", "wrong_witness:rejected", "ref_sender_rewound", "mant=33-64"]),
-    Test("rewind_digit_outside_ring", _only("f3"), run_ref, quick=80, thorough=3000, must_cover=["f3:accepted"]),
-    Test("random_strings", rand_case, run_rand, quick=500, thorough=20000, must_cover=["format_ok", "format_reject"]),
-    Test("info_strings", info_case, run_info, quick=4000, thorough=100000, must_cover=["info_ok", "info_reject", "reserved_bit", "exp>18", "mantissa>64", "range_overflow"]),
+    Test("rewind_digit_outside_ring", _only("f3"), run_ref, quick=60, thorough=3000, max_workers=4, must_cover=["f3:accepted"]),
+    Test("random_strings", rand_case, run_rand, quick=400, thorough=20000, max_workers=2, must_cover=["format_ok", "format_reject"]),
+    Test("info_strings", info_case, run_info, quick=3000, thorough=100000, max_workers=2, must_cover=["info_ok", "info_reject", "reserved_bit", "exp>18", "mantissa>64", "range_overflow"]),
 ]
